@@ -8,6 +8,31 @@ CHECKS={
    text="TLC visits every reachable configuration of the bus model for one driver goroutine with re-entrant handler bodies (subscribe/unsubscribe/clear/clearall/publish/queries from inside handlers, once, async, filters, two types on one shard) and checks the delivery/registry invariants in each; the binding to the code is trace validation: every API call, API result, filter evaluation and handler invocation of TLC-generated and random executions of the real bus must be a behaviour of the specification.",
    note="Trusted: TLC, the Go recorder (events are appended under one mutex in real-time order), the mapping of handler closures to registration ids. Bounded model (MaxReg/MaxPub); conformance is sampling of executions, not a proof about the code.", ref="DESIGN.md 5/C01, 4.1"),
 }
+
+BUSNOTE="Trusted: TLC, the Go recorder (events appended under one mutex, i.e. in real-time order; call/return stamps bracket each API call), the mapping of handler closures to registration ids. The model is bounded (MaxReg/MaxPub/2-3 goroutines); conformance executions are samples of schedules (GOMAXPROCS 1/2/4/16, yields), not all schedules of the real code."
+CHECKS.update({
+ "C02": dict(technique="TLA+ spec Bus.tla: exhaustive TLC over all interleavings of 2-3 goroutines at call/linearize/return granularity (MCBus_c02) + design mutants; recorded concurrent histories of the real bus validated against BusTrace.tla (TLC searches the linearization points)",
+   text="The real-time rules of the property (must deliver / must not deliver / at most once / count at quiescence) are invariants that TLC checks in every state of every interleaving of the bounded model; free-running multi-goroutine executions of the real bus (race detector on) are accepted only if some placement of the unlogged internal steps between the recorded call/return/filter/handler events makes them a behaviour of the specification.",
+   note=BUSNOTE, ref="DESIGN.md 5/C02"),
+ "C04": dict(technique="TLA+ spec Bus.tla: exhaustive TLC (MCBus_c04: racing publishers, Once + filter + async, cancel at any point) + mutant configs; TLC-generated and random sequential/concurrent executions validated against BusTrace.tla",
+   text="At-most-once, retired-after-firing and not-used-up-without-running are invariants of the model checked over all interleavings; the code is bound by trace validation of sequential behaviours generated from the model (eligible / filtered-out / pre-cancelled publishes) and of concurrent stress histories.",
+   note=BUSNOTE, ref="DESIGN.md 5/C04"),
+ "C05": dict(technique="TLA+ spec Bus.tla: exhaustive TLC over all 16 handler option combinations x panics x panic handler x observability (MCBus_c05); TLC-generated and random executions with panicking handlers validated against BusTrace.tla; watchdog and child-process death as observations",
+   text="The specification makes the recovery path explicit (exit, mutex release, panic handler, observability complete, wait-group decrement); every recorded execution with panicking handlers must follow it, a Publish/Wait that does not return within the watchdog and a driver process killed by an escaped panic are violations.",
+   note=BUSNOTE+" Hang detection uses a 10 s watchdog on microsecond operations.", ref="DESIGN.md 5/C05"),
+ "C06": dict(technique="TLA+ spec Bus.tla: exhaustive TLC (MCBus_c06: async handlers that publish further async work, Wait, Shutdown with a cancellable context, store with Close) + mutant addinside; recorded executions with Wait/Shutdown/cancel at arbitrary points validated against BusTrace.tla",
+   text="WaitCovers and CloseOnlyWhenDrained are invariants over all interleavings of the model; in the trace specification Wait/Shutdown(nil) can only linearize when no spawned invocation is outstanding and Close only after that, so a return or Close recorded too early cannot be explained. Publish;Wait back to back at GOMAXPROCS=1 covers the goroutine-start race.",
+   note=BUSNOTE, ref="DESIGN.md 5/C06"),
+ "C07": dict(technique="TLA+ spec Bus.tla: exhaustive TLC (MCBus_c07: concurrent publishers, Sync+Sequential and Async+Sequential, ticket-ordered mutex) + mutants nomutex/nofifo; recorded executions with enter/exit marks validated against BusTrace.tla",
+   text="NoOverlap and SeqFifo are invariants over all interleavings; in recorded executions an enter of a Sequential registration while another invocation of it is inside, or after a later publish of the same goroutine was processed, cannot be explained by the specification.",
+   note=BUSNOTE, ref="DESIGN.md 5/C07"),
+ "C08": dict(technique="TLA+ spec Bus.tla: exhaustive TLC (MCBus_c08: handlers cancelling/sampling contexts, pre-cancelled publishes, hook and observability configurations); TLC-generated and random executions over all 32 hook configurations validated against BusTrace.tla",
+   text="Hooks, context checks and context lineage are actions/conjuncts of the specification: every before hook once before the snapshot, every after hook once after the last synchronous handler, no synchronous handler start once the context is cancelled, the handler context carries the publish context's values; recorded executions must be behaviours of it.",
+   note=BUSNOTE, ref="DESIGN.md 5/C08"),
+ "C20": dict(technique="TLA+ spec Bus.tla (observability callbacks as actions): exhaustive TLC (MCBus_c05, MCBus_c08); recorded callback traces of the real bus validated against BusTrace.tla",
+   text="The callbacks are actions of the specification with their position in the publish/invocation frames; start callbacks plant tokens in the context they return and the trace specification requires each complete to present its start's token, handler tokens to descend from the publish token, and the error flag to equal 'the invocation panicked'.",
+   note=BUSNOTE+" Persist callbacks and the OpenTelemetry implementation: see the persist and otel parts of the check.", ref="DESIGN.md 5/C20"),
+})
 checks=[]
 for p in props:
     c=CHECKS.get(p['id'])
